@@ -442,7 +442,7 @@ func runWire(cfg string, raw []byte) (string, uint64) {
 	var sts []string
 	rest := out
 	// the reply to a HEAD request carries Content-Length but no body
-	head := bytes.HasPrefix(raw, []byte("HEAD "))
+	head := bytes.HasPrefix(bytes.TrimLeft(raw, "\r\n"), []byte("HEAD ")) // fasthttp skips leading empty lines
 	for len(rest) > 0 {
 		r, n, err := parseRespPrefix2(rest, head)
 		if err == nil && head && n != len(rest) {
